@@ -294,10 +294,7 @@ def unjson_float(x):
 def ensure_static_built():
     """The static Coq development (substrate, models, proofs) must be built
     and up to date with its sources; (re)build if not."""
-    mk = os.path.join(COQ, "Makefile")
-    if not os.path.exists(mk):
-        subprocess.run(["coq_makefile", "-f", "_CoqProject", "-o", "Makefile"], cwd=COQ, check=True,
-                       capture_output=True)
+    subprocess.run([os.path.join(COQ, "mkproject.sh")], cwd=COQ, check=True, capture_output=True)
     p = subprocess.run(["timeout", "3000", "make", "-j%d" % NPROC], cwd=COQ, capture_output=True, text=True)
     if p.returncode != 0:
         raise RuntimeError("static Coq build failed:\n" + (p.stdout + p.stderr)[-4000:])
